@@ -14,19 +14,28 @@ from . import sim_check as SC
 from . import esir_lib as L
 
 CLAIM = dict(
-    text="Machine-checked theorems (coq/Props/C11.v) over an executable model of myQueue/_process_trans_SIR_/_process_rec_SIR_/"
-         "fast_nonMarkov_SIR/fast_SIR written as the code is (heap as a sorted list with counters and an ARBITRARY tie policy, "
-         "pred_inf_time assigned before Q.add drops an event at tmax, rec_time, rows, transmissions): for all delay/duration oracles "
-         "(0, equal and infinite values), graphs, initial sets, tmin<tmax (tmax possibly infinite) the run infects v at tmin + "
-         "shortest-path distance in H = {u->v | delay<=duration(u)} minus R0 iff that is < tmax, recovers it duration(v) later iff < tmax, "
-         "records a shortest-path predecessor as infector; user rules consulted at most once per argument; fuel never exhausted; "
-         "percolation builders build exactly H and get_infected_nodes returns its out-component. Tie: extracted model vs the real code on "
-         "every graph <=3 nodes x delays {0,1,2,inf} x durations (exhaustive in thorough), random graphs <=10 nodes, fast_SIR under a "
-         "scripted random source (rates of every expovariate compared), both return modes.",
-    design='DESIGN.md section 4 C11, Appendix A.1',
-    technique='Coq proof (queue invariants J0-J5 by induction over pops, generic Bellman characterisation) + extracted-model/implementation correspondence + Dijkstra oracle',
-    note="heapq and networkx.descendants are taken by specification; float arithmetic is exact on the dyadic inputs used; "
-         "the CTMC law of fast_SIR (C01) is not part of this property.")
+    text="Machine-checked theorems (coq/Props/C11.v, closed under the global context) over an executable model of myQueue/"
+         "_process_trans_SIR_/_process_rec_SIR_/fast_nonMarkov_SIR/fast_SIR written as the code is (heap as a sorted list with counters "
+         "and an ARBITRARY tie policy, pred_inf_time assigned even when Q.add drops an event at tmax, rec_time, rows, transmissions, log of "
+         "rule calls): for all delay/duration oracles (0, equal and infinite values), graphs (directed or not), initial sets, tmin<tmax "
+         "(tmax possibly infinite) and EVERY tie order the run ends within fuel |I0|+sum(deg+1) and infects v at tmin + shortest-path "
+         "distance in H = {u->v | delay<=duration(u)} minus R0 iff that is < tmax, recovers it duration(v) later iff < tmax, records a "
+         "shortest-path predecessor as infector (esir_first_passage; esir_sound_closed, esir_queue_invariant = J0-J5, generic bellman_char, "
+         "esir_tie_independent); user rules consulted at most once per argument (esir_rules_once); the sampler entry used by fast_SIR shares "
+         "the loop (fast_nonmarkov_is_esir_det); percolation builders build exactly H with the stated attributes (perc_builder_spec) and "
+         "get_infected_nodes returns its out-component minus R0 (get_infected_spec, sound and complete). "
+         "_partial: esir_det_transmissions_partial (full-data branch Ok and history infection time = transmission time need invariant J3b; "
+         "validated by the correspondence only). Tie: extracted model vs the real code on every graph <=3 nodes x delays {0,1,2,inf} x "
+         "durations {0,1,2,inf} (exhaustive in thorough), random graphs <=10 nodes, fast_SIR on both paths (per-edge expovariate; "
+         "constant-tau = expovariate + np.random.binomial + random.sample + truncated exponential) under a scripted random source with every "
+         "rate/binomial argument compared, both return modes, rule-call order, percolation builders.",
+    design='DESIGN.md section 4 C11 (+ fast_SIR half of C01), Appendix A.1',
+    technique='Coq proof (queue invariants J0-J5 by induction over pops for any tie policy, potential-function termination, generic Bellman characterisation) + extracted-model/implementation correspondence + Dijkstra oracle on the implementation output',
+    note="heapq and networkx.descendants are taken by specification; float arithmetic is exact on the dyadic inputs used; the CTMC law of "
+         "fast_SIR (C01) is not part of this property. Mutants (scratch worktree): 11 of 12 reported (<= vs < at recovery time, queue keeps "
+         "events at tmax, pred_inf_time not updated, rate x1.03, builder strict <, recovered nodes not removed, early recovery cut, wrong "
+         "susceptible filter, LIFO ties (correspondence only: the property holds for any tie order), truncated exponential off by one "
+         "period, binomial p halved); the non-strict pred test is behaviourally equivalent and is not reported.")
 
 VALS = [F(0), F(1), F(2), None]
 
@@ -182,25 +191,38 @@ def run(run, tier):
         case = L.case_from_json(c)
         SC.run_cases(L, EoN, sim, [case], ['D %d %s' % (len(c.get('draws', [])), R.qtoks([F(d) for d in c.get('draws', [])]))], oracle=L.oracle, res=res, label='corpus')
     # 1. every small graph x delay/duration table (deterministic rules): the model's esir_det itself
-    stride = 53 if quick else 1
+    stride = 11 if quick else 1
     small = list(small_cases(stride, rng, 2 if quick else 3))
     if not quick and len(small) > 700000:
         small = small[::2]
     for i in range(0, len(small), 20000):
         chunk = small[i:i + 20000]
         SC.run_cases(DirectLib(), EoN, sim, chunk, [''] * len(chunk), oracle=L.oracle, nontrivial=nontrivial, res=res, label='small-exhaustive')
+    # 1b. every undirected graph on 4 nodes with random tables over {0,1,2,inf}
+    four = []
+    labels4 = ['vd', ('t', 2), 7, 'va']
+    for edges in R.all_graphs(4, False):
+        gc = R.graph_from_edges(4, edges, labels4, False)
+        for k in range(25 if quick else 1200):
+            dt, rt = L.gen_tables(rng, gc, VALS, VALS)
+            i0 = rng.sample(gc.order, rng.randint(1, 2)); rest = [u for u in gc.order if u not in i0]
+            four.append({'kind': 'NM', 'gc': gc, 'full': k % 2 == 0, 'tmin': F(-3, 2), 'tmax': rng.choice([None, F(-1, 2), F(1, 2), F(3, 2)]),
+                         'rho': None, 'i0': i0, 'i0_form': 'list', 'r0': rng.sample(rest, 1) if k % 4 == 0 else None, 'dtab': dt, 'rtab': rt})
+    for i in range(0, len(four), 20000):
+        chunk = four[i:i + 20000]
+        SC.run_cases(DirectLib(), EoN, sim, chunk, [''] * len(chunk), oracle=L.oracle, nontrivial=nontrivial, res=res, label='four-node-tables')
     # 2. random graphs <=10 nodes, tables with ties / 0 / inf, all argument shapes, rho sampling
-    nrand = 2500 if quick else 40000
+    nrand = 6000 if quick else 60000
     cases = [L.gen_case(rng, 'NM', nmax=10, zero_init_dur=True) for _ in range(nrand)]
     cases += [L.gen_case(rng, 'NM', malformed=True) for _ in range(nrand // 50)]
     SC.run_cases(L, EoN, sim, cases, ['W ' + R.ent_tokens(rng) for _ in cases], oracle=L.oracle, nontrivial=nontrivial, res=res, label='nonMarkov-random')
     # 3. fast_SIR under the scripted random source (model chooses the script)
-    nf = 2500 if quick else 40000
+    nf = 6000 if quick else 60000
     cases = [L.gen_case(rng, 'FSIR', nmax=10) for _ in range(nf)]
     SC.run_cases(L, EoN, sim, cases, ['W ' + R.ent_tokens(rng) for _ in cases], oracle=L.oracle, nontrivial=nontrivial, res=res, label='fast_SIR-random')
     # every draw script on small graphs (delays from a set with ties)
     cases = []
-    for _ in range(40 if quick else 400):
+    for _ in range(120 if quick else 1200):
         c = L.gen_case(rng, 'FSIR', nmax=3); c['rho'] = None
         if not c['i0']: c['i0'] = [c['gc'].order[0]]; c['i0_form'] = 'list'; c['r0'] = None
         cases.append(c)
@@ -220,7 +242,7 @@ def run(run, tier):
     if not props['ok']:
         run.violation('C11/proof', 'Props/C11.v no longer checks: %s' % props['log'][-400:], {'broken': 'coq/Props/C11.v', 'log': props['log']}, no_input=True)
     C.proof_coverage(run, props, res.n, min(len(res.distinct), res.nontrivial),
-                     'deterministic rules: every labelled graph on <=3 nodes (undirected all; directed with <=%d arcs on 3 nodes) x every delay table over {0,1,2,inf} x every duration table over {0,1,2,inf} (every %d-th kept), one (I0,R0,tmax,return mode) variant each, tmin=5/2; random graphs <=10 nodes (30%% directed) with delays in {0,1/2,1,2,3,inf}, durations in {0,1/2,1,2,inf}, tmin in {0,5/2,-3/2,..}, finite/infinite tmax, initial recovered nodes, rho sampling, container shapes; fast_SIR random scripts (dyadic draws) + every draw script on graphs <=3 nodes; percolation builders. Compared: calls of the user rules (order and arguments), expovariate rates, arrays, histories, transmissions; the Dijkstra oracle judges the implementation\'s own output. Non-trivial = at least two reported events' % (2 if quick else 3, stride),
+                     'deterministic rules: every labelled graph on <=3 nodes (undirected all; directed with <=%d arcs on 3 nodes) x every delay table over {0,1,2,inf} x every duration table over {0,1,2,inf} (every %d-th kept), one (I0,R0,tmax,return mode) variant each, tmin=5/2; every undirected graph on 4 nodes x random tables over {0,1,2,inf} (tmin=-3/2); random graphs <=10 nodes (30%% directed) with delays in {0,1/2,1,2,3,inf}, durations in {0,1/2,1,2,inf}, tmin in {0,5/2,-3/2,..}, finite/infinite tmax, initial recovered nodes, rho sampling, container shapes; fast_SIR random scripts (dyadic draws) + every draw script on graphs <=3 nodes; percolation builders. Compared: calls of the user rules (order and arguments), expovariate rates, arrays, histories, transmissions; the Dijkstra oracle judges the implementation\'s own output. Non-trivial = at least two reported events' % (2 if quick else 3, stride),
                      res.samples, {'distribution': res.stats, 'mismatches': len(res.mism), 'oracle_failures': len(res.oracle_bad),
                                    'builder_failures': len(bbad), 'builder_mismatches': len(bmism)})
     run.assumptions += ['heapq.heappush/heappop return the least (time, counter) tuple (specification of heapq)',
